@@ -111,7 +111,11 @@ def install_adapter_contracts(v, ex_bg):
         raise Unsupported(f"no DataAdapter[...] base on {adapter_cls}")
 
     def guard_of(ex, p):
-        return z3.And(*p.cond) if p.cond else z3.BoolVal(True)
+        # the branch decisions under which this call is reached; the generator's initial hypotheses (the first `guard_base`
+        # conditions: preconditions asserted in every obligation it emits) are left out of the guard -- they hold anyway, and
+        # repeating their nested quantifiers inside every ghost fact made the reachability covers undecidable in practice
+        conds = p.cond[getattr(ex, "guard_base", 0):]
+        return z3.And(*conds) if conds else z3.BoolVal(True)
 
     for dcls, acls in ADAPTER_OF.items():
         is_tag = dcls == TAG
@@ -260,6 +264,7 @@ def roundtrip_obligations(v, adapter_cls, prop="C01", label_fields=()):
         base_n = len(p.cond)
         pre.append(z3.Or([z3.And(*q_.cond[base_n:]) if q_.cond[base_n:] else z3.BoolVal(True) for q_, _ in accepted]) if accepted else z3.BoolVal(False))
     p = Path(list(p.cond) + pre, p.env, None, p.heap)
+    ex.guard_base = len(p.cond)
     short = adapter_cls.rsplit(".", 1)[1]
     base = f"{prop}/roundtrip/{short}"
     obls = []
@@ -296,7 +301,7 @@ def roundtrip_obligations(v, adapter_cls, prop="C01", label_fields=()):
                 obls.append(Obligation(f"{base}/field-{f}#{n_paths}", "post", list(ex.bg) + q2.cond + [z3.Not(goal)],
                                        inputs={"x": x}, meta=dict(field=f, adapter=short)))
             if n_paths == 1:
-                obls.append(Obligation(f"{base}/cover#{n_paths}", "cover", list(ex.bg) + q2.cond, expect="sat"))
+                obls.append(Obligation(f"{base}/cover#{n_paths}", "cover", list(ex.bg) + q2.cond, expect="sat", inputs={"x": x}))
     unmodelled = [f for f in fields if f not in x.fields]
     for s_ in ex.side:
         label, cond, goal = s_
@@ -358,6 +363,7 @@ def collection_roundtrip(v, tname, dcls, acls, prop="C01", label_fields=()):
     xbox.append(x)
     bg += sb.wf
     p = Path(list(p.cond) + simple_term_facts(ex, v, x, p, "x", any_terms=bool(label_fields)), p.env, None, p.heap)
+    ex.guard_base = len(p.cond)
     base = f"{prop}/collection/{tname}/own-fields"
     obls = []
     fm, fn_save, _, fq = v.repo.find_method(acls, "to_aoef")
